@@ -225,6 +225,40 @@ def r6(ctx, prog, cfgname):
     ctx.check(R, codes == want, "error codes", "[%s] detection sites report EAGAIN/EFAULT/EFAULT/EFAULT: %s" % (cfgname, codes), key="C17.R6:codes")
 
 
+def r7(ctx, prog, cfgname):
+    R = ctx.rule("C17.R7", "the cheap pre-filter in front of the double-free list walk accepts every value a genuine free-list link can have; in particular the list tail "
+                           "(decoded link NULL): evaluated with the analyser's evaluator, the guard of mi_check_is_double_freex is definitely true for n == NULL")
+    from absint import Interp, AV, Split, Unsupported, AssertionMayFail
+    g = prog.fn("mi_check_is_double_free")
+    calls = list(g.calls("mi_check_is_double_freex"))
+    nd = [dd["d"] for _, dd in rl.var_init_from(g, lambda j: rl.is_call(g, j, "mi_block_nextx"))]
+    if not calls or len(nd) != 1:
+        ctx.broke("C17.R7[%s]: the slow check call / the decoded-link local of mi_check_is_double_free not found" % cfgname)
+        return
+    x = calls[0]
+    while x is not None and g.nodes[x]["k"] != "IfStmt":
+        x = g.parent.get(x)
+    conds = []
+    while x is not None:            # all enclosing ifs whose then-branch contains the call
+        if g.nodes[x]["k"] == "IfStmt" and calls[0] in set(g.walk(g.nodes[x]["then"])):
+            conds.append(g.nodes[x]["cond"])
+        x = g.parent.get(x)
+    if not conds:
+        ctx.ok(R, g.where(calls[0]), "[%s] the list walk is unconditional" % cfgname)
+        return
+    it = Interp(prog)
+    verdict, why = True, ""
+    for c in conds:
+        try:
+            v = it.eval(g, c, {nd[0]: AV(0)}, 0)
+            if v.const() is None or v.const() == 0:
+                verdict, why = False, "guard `%s` evaluates to %s for a NULL link" % (g.text(c)[:80], "false" if v.const() == 0 else "an undetermined value")
+        except (Split, Unsupported, AssertionMayFail) as e:
+            verdict, why = False, "guard `%s` cannot be shown true for a NULL link (%s)" % (g.text(c)[:80], e)
+    ctx.check(R, verdict, g.where(calls[0]), "[%s] %s" % (cfgname, "a block whose decoded link is NULL (tail of a free list: the most common double free) reaches the list walk" if verdict else why),
+              key="C17.R7:null_link")
+
+
 def run(ctx):
     ctx.explanation = ("Static decision of C17's code-shaped necessary conditions in the two hardened programs (MI_SECURE=4 and MI_DEBUG=3, each its own AST/CFG): presence and order "
                        "of the double-free and padding checks before any store, report-and-cut of out-of-page links, who-may-decode page-keyed links, the bound of the remote walk, "
@@ -248,10 +282,10 @@ def run(ctx):
                     continue
                 ctx.broke("configuration %s does not enable %s" % (c, k))
         n0 = len(ctx.instances)
-        r1(ctx, prog, c); r2(ctx, prog, c); r3(ctx, prog, c); r4(ctx, prog, c); r5(ctx, prog, c); r6(ctx, prog, c)
+        r1(ctx, prog, c); r2(ctx, prog, c); r3(ctx, prog, c); r4(ctx, prog, c); r5(ctx, prog, c); r6(ctx, prog, c); r7(ctx, prog, c)
         for i in ctx.instances[n0:]:
             i["site"] += " [%s]" % c
             if not i["ok"]:
                 i["key"] += ":" + c
-    for r, fl in (("C17.R1", 22), ("C17.R2", 6), ("C17.R3", 4), ("C17.R4", 6), ("C17.R5", 12), ("C17.R6", 8)):
+    for r, fl in (("C17.R1", 22), ("C17.R2", 6), ("C17.R3", 4), ("C17.R4", 6), ("C17.R5", 12), ("C17.R6", 8), ("C17.R7", 2)):
         ctx.floor(r, fl)
